@@ -172,6 +172,15 @@ def explore(ctx):
                 ctx.findings.append(dict(key=dict(aspect='isolation-default-memory', dev=d1, other=d2),
                                          what='instances %s/%s created without a memory argument: %s' % (d1, d2, f),
                                          replay=dict(d1=d1, d2=d2)))
+    # (3b) isolation ACROSS processes: what a device computes must not depend on whether a processor of another (or
+    # the same) device ran earlier in the process.  The in-process experiments above compare interleaved with solo
+    # runs made in the SAME interpreter, so state shared through a module-level or class-level cache is wrong in both
+    # and cancels out (seeded change C14-6: N/Z flags memoised per value in a module-level dict); here the solo trace
+    # comes from a fresh interpreter.
+    n_x, xf = cross_process_isolation(ctx)
+    n_eval += n_x
+    for f in xf:
+        ctx.findings.append(f)
     # (4) 65Org16: an opcode CELL is 16 bits wide; only the 151 documented values (all < 256) are instructions.
     # A cell value >= 256 must not decode or execute as one (raising -- what the pinned tree does, recorded
     # as outside C05's and C09's quantifier 0..255 -- or acting as an undeclared opcode are both "not decoded").
@@ -192,6 +201,47 @@ def explore(ctx):
     ctx.stats['distribution'] = dict(table_rows=768, configurations=len(orders),
                                      pair_runs=n_eval - 768 - len(orders) - n_wide, org16_cells_above_255=n_wide)
     ctx.note('tables, %d configurations, isolation runs: %d findings' % (len(orders), len(ctx.findings)))
+
+
+def _iso_child(seed, order):
+    import subprocess
+    import sys
+    from common import REPO
+    child = os.path.join(os.path.dirname(os.path.abspath(__file__)), 'c14_iso_child.py')
+    p = subprocess.run([sys.executable, child, str(seed), ','.join(order)], stdout=subprocess.PIPE, stderr=subprocess.PIPE,
+                       env=dict(os.environ, PYTHONPATH=REPO), timeout=120)
+    if p.returncode != 0:
+        return {'error': p.stderr.decode('utf-8', 'replace')[-400:]}
+    return json.loads(p.stdout.decode())
+
+
+def cross_process_isolation(ctx):
+    seed = 1000 + ctx.seed
+    solo = {d: _iso_child(seed, [d]) for d in DEVNAMES}
+    findings, n = [], 0
+    for d1 in DEVNAMES:
+        for d2 in DEVNAMES:
+            n += 1
+            both = _iso_child(seed, [d1, d2])
+            for k, d in ((0, d1), (1, d2)):
+                got, want = both.get('%d:%s' % (k, d)), solo[d].get('0:%s' % d)
+                if got != want:
+                    i = next((j for j in range(min(len(got or []), len(want or []))) if got[j] != want[j]), 0) if got and want else 0
+                    findings.append(dict(
+                        key=dict(aspect='isolation-across-devices', dev=d, other=(d1 if k else d2)),
+                        what='a %s that runs %s a %s in the same process computes differently from a %s alone in a fresh '
+                             'process: step %d gives (a,x,y,sp,p,pc,cycles) = %s, alone %s%s' % (
+                                 d, 'after' if k else 'before', d1 if k else d2, d, i,
+                                 (got or ['?'])[i] if got else both.get('error'), (want or ['?'])[i] if want else solo[d].get('error'),
+                                 '' if got and want else ' (child failed)'),
+                        replay=dict(iso_order=[d1, d2], iso_seed=seed, dev=d)))
+                    break
+            if findings:
+                break
+        if findings:
+            break
+    ctx.stats.setdefault('extra', {})['cross_process_isolation_pairs'] = n
+    return n, findings
 
 
 def wide_opcode_values(rng, n):
@@ -320,6 +370,12 @@ def replay(ctx, path):
     print(json.dumps(obj.get('finding', obj), indent=1)[:2000])
     f = obj.get('finding', {}).get('replay', {})
     classes = device_classes()
+    if 'iso_order' in f:
+        both, alone = _iso_child(f['iso_seed'], f['iso_order']), _iso_child(f['iso_seed'], [f['dev']])
+        k = f['iso_order'].index(f['dev']) if f['iso_order'][1] != f['dev'] else 1
+        same = both.get('%d:%s' % (k, f['dev'])) == alone.get('0:%s' % f['dev'])
+        print('now: %s in the order %s vs alone in a fresh process: %s' % (f['dev'], f['iso_order'], 'same trace' if same else 'DIFFERENT traces'))
+        return 0 if same else 1
     if 'cell' in f:
         r = wide_opcode_case(classes, f['cell'])
         print('now: 65Org16 opcode cell $%04x: %s' % (f['cell'], r or 'not decoded (raises or acts as undeclared)'))
